@@ -99,3 +99,43 @@ pub fn int_sweep(ty: &str, lo: i64, hi: i64) -> J {
         _ => json!({"unknown_type": ty}),
     }
 }
+
+/// C13: a JSON text through serde_json's parser, then viewed through deserr and converted back
+fn kinds_agree(v: &J) -> bool {
+    use deserr::IntoValue;
+    let k1 = v.kind();
+    let k2 = v.clone().into_value().kind();
+    if k1 != k2 {
+        return false;
+    }
+    match v {
+        J::Array(a) => a.iter().all(kinds_agree),
+        J::Object(o) => o.values().all(kinds_agree),
+        _ => true,
+    }
+}
+
+pub fn json_case(text: &str) -> J {
+    use deserr::IntoValue;
+    let j: J = match serde_json::from_str(text) {
+        Ok(j) => j,
+        Err(e) => return json!({"parse_error": e.to_string()}),
+    };
+    let view = crate::ov::ov_of_value(j.clone().into_value());
+    rec::reset(vec![], true);
+    let d1 = std::panic::catch_unwind(|| deserialize::<J, J, Rec<0>>(j.clone()));
+    let calls1 = rec::take_trace().len();
+    rec::reset(vec![], false);
+    let view2 = view.clone();
+    let d2 = std::panic::catch_unwind(move || deserialize::<J, OV, Rec<0>>(view2));
+    let calls2 = rec::take_trace().len();
+    let back: J = J::from(j.clone().into_value());
+    json!({
+        "view": crate::ov::ov_to_wire(&view),
+        "deser_same": matches!(&d1, Ok(Ok(v)) if *v == j),
+        "deser_ov_same": matches!(&d2, Ok(Ok(v)) if *v == j),
+        "calls": calls1 + calls2,
+        "from_same": back == j,
+        "kinds_agree": kinds_agree(&j),
+    })
+}
